@@ -871,6 +871,8 @@ def feature_patterns(full=True):
                    [["axis", ["ac", 0]], ["num_outputs", ["ac", 2]]], [["num_outputs", ["av", "a", False]]]]
     if not full:
         split_attrs = split_attrs[:5]
+    # a LIST-valued attribute constant (hosts carry the same list, a longer one with it as prefix, a shorter prefix, the empty list)
+    split_attrs = split_attrs + [[["split", ["ac", [1, 2]]]]]
     for ins in split_ins:
         for aoi in (None, True):
             for attrs in split_attrs:
@@ -911,7 +913,8 @@ def feature_hosts():
     (none, axis 0/1, float axis, num_outputs, both), outputs 1..3, domain ''/custom; alone, consumed, or doubled."""
     res = []
     attrsets = [[], [["axis", "i", 0]], [["axis", "i", 1]], [["axis", "f", 0.0]], [["num_outputs", "i", 2]],
-                [["axis", "i", 0], ["num_outputs", "i", 2]], [["num_outputs", "i", 0]]]
+                [["axis", "i", 0], ["num_outputs", "i", 2]], [["num_outputs", "i", 0]],
+                [["split", "is", [1, 2]]], [["split", "is", [1, 2, 3]]], [["split", "is", [1]]], [["split", "is", []]], [["split", "is", [2, 1]]]]
     for op in ("Split", "Add", "Sub", "Neg"):
         for ins in ([], [["i", 0]], [["i", 0], ["i", 1]], [["i", 0], ["i", 0]], [["i", 0], None], [None, ["i", 0]],
                     [["i", 0], ["i", 1], ["i", 0]], [["i", 0], ["i", 1], None]):
